@@ -138,7 +138,7 @@ CHECKS = {
             dict(name="c12_flags", what="data-transmission, scan/data and alarm-summary flags == documented bit for all 2^16 words"),
             dict(name="c12_scaled", what="raw/100, build-number rule, VCP magnitude/sign"),
             dict(name="c12_cmd_status", what="clutter mitigation decision status codes"),
-            dict(name="c12_alarm_list", what="alarm_messages(): definitions of non-zero codes in message order, 14 symbolic slots (get_alarm_message replaced by the contract Verus proves)"),
+            dict(name="c12_alarm_list", bounded="6 of 14 alarm slots symbolic, the rest zero", what="alarm_messages(): definitions of non-zero codes in message order (get_alarm_message replaced by the contract Verus proves)"),
         ])],
         trusted_base=STD_TRUST + KANI_TRUST + [
             "oracle for 'documented' is the field documentation in /repo (ICD text unavailable offline)",
